@@ -233,6 +233,16 @@ def gen_variants(rng, job, thorough, cache_only=False):
             rng.shuffle(perm)
             v['comment_perm'] = perm
         variants.append(v)
+    if not cache_only:
+        # source files in ANY order, including orders in which a header that uses a type is named
+        # before the header that declares it.  C16 says "in whatever order ... the source files
+        # containing them were supplied"; the Python pipeline accepts any arrival order of symbols
+        # (the unchanged tree is byte-stable under these too), even though a real C compiler
+        # front end would only see such an order if every header forward-declared what it uses.
+        for _ in range(3 if thorough else 2):
+            fo = job['file_order'][:]
+            rng.shuffle(fo)
+            variants.append({'kind': 'order', 'hashseed': rng.choice(pool), 'file_order': fo, 'free_order': True})
     if thorough and not cache_only:
         variants.append({'kind': 'order', 'hashseed': rng.randrange(1, 2**32 - 1), 'one_shot': True})
     # 2. a cache history, executed in order on one cache directory
